@@ -36,7 +36,7 @@ try:
     if demodir is None:
         demodir = touched[0]
     meta["demo_dir"] = demodir
-    rc, out = sh("go build $(go list -f '{{if ne .Name \"main\"}}{{.ImportPath}}{{end}}' ./...)")
+    rc, out = sh("go build $(go list -f '{{if and (ne .Name \"main\") .GoFiles}}{{.ImportPath}}{{end}}' ./...)")
     meta["ran"].append({"cmd": "go build ./...", "rc": rc})
     if rc: raise SystemExit("build fails with patch: " + out[-2000:])
     pk = " ".join("./" + t for t in touched)
